@@ -194,7 +194,7 @@ def part_exit_status(fx):
                     C.violation("exit-status|bad-token-zero", "an invalid token gave exit status 0 (%s): %s" % ("stdin" if via else "argv", t[:80]))
         C.nontrivial()
     # every composition of every length 1..8
-    maxlen = 8 if C.tier == "thorough" else 6
+    maxlen = 10 if C.tier == "thorough" else 6
     for n in range(1, maxlen + 1):
         for via in (False, True):
             if not C.case("jwt-verify with every good/bad composition of %d tokens (%s)" % (n, "stdin" if via else "arguments")):
@@ -709,6 +709,33 @@ def part_keys(fx, tmp):
                             got.add(n)
             if keys and got != set(names) | {"oct"}:
                 C.violation("jwk2key|key-differs", "via %s only %s came back identical" % (via, sorted(got)))
+        # the same JWK set given together with a file jwk2key cannot use (before it, after it): every key of the good file is still written back
+        defects = {"truncated JSON": b'{"keys":[', "empty file": b"", "a number": b"5", "unknown kty": b'{"kty":"ZZ","kid":"z"}', "missing file": None}
+        for dn in sorted(defects):
+            for order in ("before", "after"):
+                bad = os.path.join(d, "bad.json")
+                if os.path.exists(bad):
+                    os.unlink(bad)
+                if defects[dn] is not None:
+                    open(bad, "wb").write(defects[dn])
+                od = os.path.join(d, "o_%s_%s" % (dn.replace(" ", "_"), order))
+                os.mkdir(od)
+                rc, so, se = run([tool("jwk2key"), "--dir=" + od] + ([bad, out] if order == "before" else [out, bad]))
+                got = set()
+                for f in sorted(os.listdir(od)):
+                    pth = os.path.join(od, f)
+                    if f.endswith(".bin"):
+                        if open(pth, "rb").read() == raw:
+                            got.add("oct")
+                    else:
+                        fp = pem_fingerprint(pth, True)[1]
+                        for n in names:
+                            if fp == pem_fingerprint(os.path.join(KEYS, n + ".priv.pem"), True)[1]:
+                                got.add(n)
+                C.obs((dn, order, len(got)))
+                if keys and got != set(names) | {"oct"}:
+                    C.violation("jwk2key|key-differs|next-to-an-unusable-file", "jwk2key given a file it cannot use (%s) %s the key set: only %s came back identical (exit %d)" %
+                                (dn, order, sorted(got), rc))
         C.nontrivial()
         shutil.rmtree(d, ignore_errors=True)
     # every ordered pair (thorough: triple) of file kinds in one key2jwk call: each position yields what the file yields alone
